@@ -181,10 +181,11 @@ func c1Image(w *replication.VHWriter, cols []c1Col, pres int, free bool) []c1Cel
 // VH_C01_History: cfg bit0 CRC32, bit1 rows v2, bit2 6-byte table ids, bit3 GTID events;
 // axis 0: cell axis (one change, free column tuple / presence / NULL pattern),
 // axis 1: structure axis (1-2 transactions x 1-2 statements x 2 tables x 1-2 rows events),
+// axis 3: the cell axis driven through Streamer.Stream and the scripted master (library-priority schedule),
 // axis 2: wide axis (one change on the 10-column table, partial images from c1WidePres, NULL patterns).
 func VH_C01_History(cfg, axis int) {
 	crcOn, v2, w6, gtid := cfg&1 != 0, cfg&2 != 0, cfg&4 != 0, cfg&8 != 0
-	c1FreeLen = axis == 0 || axis == 2
+	c1FreeLen = axis == 0 || axis == 2 || axis == 3
 	width := 4
 	if w6 {
 		width = 6
@@ -268,7 +269,7 @@ func VH_C01_History(cfg, axis int) {
 		for st := 0; st < nst; st++ {
 			ti := 0
 			switch axis {
-			case 0:
+			case 0, 3:
 				ti = vhChoose(3)
 			case 2:
 				ti = 5
@@ -324,7 +325,7 @@ func VH_C01_History(cfg, axis int) {
 				all := (1 << uint(len(cols))) - 1
 				presI, presD := all, all
 				freeI, freeD := false, false
-				if axis == 0 {
+				if axis == 0 || axis == 3 {
 					// every non-empty presence pattern
 					if kind != kWrite {
 						presI = 1 + vhChoose(all)
@@ -354,7 +355,7 @@ func VH_C01_History(cfg, axis int) {
 				nrows := 1
 				if axis == 1 {
 					nrows = 1 + e // the second rows event of a statement carries two rows
-				} else if kind == kDelete {
+				} else if kind == kDelete && axis != 3 {
 					nrows = 1 + vhChoose(2)
 				}
 				for i := 0; i < nrows; i++ {
@@ -397,21 +398,10 @@ func VH_C01_History(cfg, axis int) {
 		}
 	}
 
-	// ---- run the real code: readBinlogEvent per packet, then parseEvents ----
-	conn := &c1Conn{packets: packets}
-	sl := &slaveConnection{dc: conn}
-	ch := make(chan replication.BinlogEvent, len(packets))
-	for range packets {
-		ev, err := sl.readBinlogEvent()
-		vhAssert(err == nil, "packet becomes an event")
-		ch <- ev
-	}
-	close(ch)
+	// ---- run the real code ----
 	m := &c1Mapper{}
-	s := &Streamer{tableMapper: m}
-	s.SetBinlogPosition(Position{Filename: "bin.000007", Offset: int64(base)})
 	k := 0
-	s.sendTransaction = func(t *Transaction) error {
+	handler := func(t *Transaction) error {
 		vhAssert(k < len(txs), "nothing but the committed transactions is delivered")
 		want := txs[k]
 		k++
@@ -450,6 +440,39 @@ func VH_C01_History(cfg, axis int) {
 		}
 		return nil
 	}
+	if axis == 3 {
+		// through the public API: Streamer.Stream, newSlaveConnection, the reader goroutine, the
+		// (model / natively: real) driver and a master that serves the packets and then ends the dump
+		sc := &vScript{end: endEOF}
+		for _, p := range packets {
+			sc.packets = append(sc.packets, p[1:])
+		}
+		env := vhStartEnv(sc)
+		defer env.stop()
+		s, _ := NewStreamer(env.dsn(), serverID, m)
+		s.SetBinlogPosition(Position{Filename: "bin.000007", Offset: int64(base)})
+		err := s.Stream(newVCtx(), handler)
+		vhAssert(err == nil, "well-formed binlog streams without error")
+		vhAssert(s.Error() == nil, "the master's EOF is a clean end")
+		vhAssert(k == len(txs), "exactly one transaction per committed transaction")
+		vhAssert(s.binlogPosition().Offset == boundary, "the stored position is the end label of the last transaction")
+		vhQuiesce()
+		vhCover("history-stream")
+		return
+	}
+	// readBinlogEvent per packet, then parseEvents
+	conn := &c1Conn{packets: packets}
+	sl := &slaveConnection{dc: conn}
+	ch := make(chan replication.BinlogEvent, len(packets))
+	for range packets {
+		ev, err := sl.readBinlogEvent()
+		vhAssert(err == nil, "packet becomes an event")
+		ch <- ev
+	}
+	close(ch)
+	s := &Streamer{tableMapper: m}
+	s.SetBinlogPosition(Position{Filename: "bin.000007", Offset: int64(base)})
+	s.sendTransaction = handler
 	_, err := s.parseEvents(context.Background(), ch)
 	vhAssert(err == nil, "well-formed binlog parses")
 	vhAssert(k == len(txs), "exactly one transaction per committed transaction")
